@@ -67,6 +67,12 @@ def cases(tier, rng, dist):
         yield {"m": bad, "k": 1, "bad": "values"}
     for nd in ([0, 1, 1, 0], [[[0, 1], [1, 0]]]):
         yield {"m": nd, "k": 1, "bad": "ndim"}
+    # few swappable row pairs among many rows: the retry loop needs hundreds or thousands of attempts
+    for s in range(4 if tier == "quick" else 20):
+        R = rng.randint(40, 80)
+        m = [[rng.randint(0, 1)] * 2 for _ in range(R)]
+        i, j = rng.sample(range(R), 2); m[i] = [1, 0]; m[j] = [0, 1]
+        yield {"m": m, "k": rng.choice([1, 1, 2, 3]), "real_seed": real_seed(rng), "rare": [i, j]}
     for s in range(8 if tier == "quick" else 60):
         R, C = rng.randint(2, 4), rng.randint(2, 4)
         m = [[rng.randint(0, 1) for _ in range(C)] for _ in range(R)]
@@ -82,7 +88,7 @@ def run(c):
         a = np.array(c["m"]); outs = []; same = []
         for gs, mk in ((1, lambda: c["real_seed"]), (2, lambda: c["real_seed"]), (3, lambda: np.random.RandomState(seed_int(c["real_seed"]))), (4, lambda: np.random.RandomState(seed_int(c["real_seed"])))):
             np.random.seed(gs); g0 = np.random.get_state()[1].tobytes()
-            r = guarded(lambda: pifs(a, k=c["k"], seed=mk()).tolist(), secs=20)
+            r = guarded(lambda: pifs(a, k=c["k"], seed=mk()).tolist(), secs=60)
             same.append(g0 == np.random.get_state()[1].tobytes()); outs.append(list(r))
         return {"outs": outs, "global_same": same}
     a = np.array(c["m"], dtype=c["dtype"], order=c["order"]); a0 = a.copy()
@@ -104,6 +110,15 @@ def oracle(c, o):
         if outs[0] != outs[1]: return {"why": f"two calls with seed={c['real_seed']} under different numpy global states differ", "cls": "pifs:irreproducible"}
         if outs[2] != outs[3]: return {"why": "two RandomState generators in the same state give different results", "cls": "pifs:randomstate-replay"}
         if not all(o["global_same"]): return {"why": "a seeded call advanced numpy's global random state", "cls": "pifs:global-rng"}
+        if "rare" in c:
+            # exactly one swappable pair: the result after k swaps is determined (the two rows exchanged k times)
+            i, j = c["rare"]; want = [list(r_) for r_ in c["m"]]
+            if c["k"] % 2:
+                want[i], want[j] = want[j], want[i]
+            for x in (outs[0], outs[2]):
+                if x[1] != want:
+                    diff = sum(1 for a_, b_ in zip(sum(x[1], []), sum(c["m"], [])) if a_ != b_)
+                    return {"why": f"{len(c['m'])}x2 matrix whose only swappable rows are {i} and {j}, k={c['k']}: {diff} cells differ from the input, exactly {4 * (c['k'] % 2)} must (result is not the input after exactly k swaps)", "cls": "pifs:not-k-swaps"}
         return None
     r = o["r"]
     if r[0] != "ok": return {"why": f"raised {r} on a swappable binary matrix {c['m']}", "cls": "pifs:raises"}
